@@ -3,8 +3,8 @@ CONSTANTS
   Sessions = {1, 2}
   MaxOps = 12
   Kinds = {"a", "pad", "hash", "num", "empty"}
-  DEV = {}
+  WithWrite = TRUE
   Emit = TRUE
 SPECIFICATION Spec
-INVARIANTS EmitInv NoDup SavedPresent InOrder TsAttached ReloadEq
+INVARIANTS EmitInv TsAttached ReloadEq
 CHECK_DEADLOCK FALSE
